@@ -1,4 +1,5 @@
 import EzdxfVerif.Model.Doc
+import EzdxfVerif.Model.Audit
 import Drivers.Proto
 open EzdxfVerif EzdxfVerif.Doc Proto
 
@@ -102,6 +103,21 @@ partial def loop (i o : IO.FS.Stream) (s : State) (tracked : List Nat) : IO Unit
     match parseInit f with
     | some s0 => o.putStrLn ("ok;" ++ observe s0 []); loop i o s0 []
     | none => o.putStrLn "bad-op init"; loop i o s tracked
+  | ["dmgowner", e, k, _] =>
+    match e.toNat?, (if k == "-" then some none else k.toNat?.map some) with
+    | some e', some ow =>
+      let s' := dmgOwner s e' ow
+      o.putStrLn ("ok;" ++ observe s' tracked); loop i o s' tracked
+    | _, _ => o.putStrLn "bad-op"; loop i o s tracked
+  | ["dmgappend", k, e, _] =>
+    match k.toNat?, e.toNat? with
+    | some k', some e' =>
+      let s' := dmgAppend s k' e'
+      o.putStrLn ("ok;" ++ observe s' tracked); loop i o s' tracked
+    | _, _ => o.putStrLn "bad-op"; loop i o s tracked
+  | ["audit", _] =>
+    let r := audit s
+    o.putStrLn ("ok:" ++ toString r.2 ++ ";" ++ observe r.1 tracked); loop i o r.1 tracked
   | ["dump"] =>
     let w := writeFile s
     o.putStrLn (" ".intercalate (w.blocks.map fun b => toString b.1 ++ ":" ++ ",".intercalate (b.2.map toString))
